@@ -11,6 +11,39 @@ Definition idx (F : list N) (id : N) : N :=
 
 Definition ptr_tag (safe : bool) : N := if safe then T_SafePointer else T_ObjectPointer.
 
+(* script variables *)
+Definition enc_ptr (F : list N) (safe : bool) (t : option N) : list N :=
+  rec_bytes (ptr_tag_of safe) (le_encode 4 (match t with None => NULLP | Some x => idx F x end)).
+
+Fixpoint enc_ptrs (F : list N) (ts : list (option N)) : list N :=
+  match ts with [] => [] | t :: r => enc_ptr F false t ++ enc_ptrs F r end.
+
+Definition enc_new (F : list N) (hid : N) (content : list N) : list N :=
+  rec_bytes T_Boolean [1] ++ rec_bytes T_Position (le_encode 4 (idx F hid)) ++ content.
+
+Definition enc_tbody (F : list N) (b : tbody (option N)) : list N :=
+  match b with
+  | TNone => []
+  | TStr bs => w_str bs
+  | TPrim k v => rec_bytes (vp_tag k) (le_encode (vp_width k) v)
+  | TCStr s => w_cstr s
+  | TPtr k x => enc_ptr F (vptr_safe k) x
+  | TArrayNew hid rc tl thr tli count =>
+      enc_new F hid (u32 rc ++ u32 tl ++ u32 thr ++ u32 count ++ rec_bytes T_UShort (le_encode 2 tli))
+  | TConstArrayNew hid rc size => enc_new F hid (u32 rc ++ u32 size)
+  | TPointerNew pid ts => enc_new F pid (u32 (nlen ts) ++ enc_ptrs F ts)
+  | THolderRef _ None => []
+  | THolderRef _ (Some hid) => rec_bytes T_Boolean [0] ++ enc_ptr F false (Some hid)
+  | TVector bs => rec_bytes T_Raw bs ++ rec_bytes T_Raw bs ++ rec_bytes T_Raw bs
+  end.
+
+Definition enc_tok (F : list N) (t : tok (option N)) : list N :=
+  rec_bytes T_Position (le_encode 4 (idx F (t_vid t))) ++ rec_bytes T_Byte [vtype (t_body t)] ++
+  enc_tbody F (t_body t).
+
+Fixpoint enc_toks (F : list N) (ts : list (tok (option N))) : list N :=
+  match ts with [] => [] | t :: r => enc_tok F t ++ enc_toks F r end.
+
 Definition enc_leaf (F : list N) (l : leaf) : list N :=
   match l with
   | LPrim k v => rec_bytes (ptag k) (le_encode (pwidth k) v)
@@ -19,6 +52,7 @@ Definition enc_leaf (F : list N) (l : leaf) : list N :=
   | LPtr s None => rec_bytes (ptr_tag s) (le_encode 4 NULLP)
   | LPtr s (Some t) => rec_bytes (ptr_tag s) (le_encode 4 (idx F t))
   | LPos id => rec_bytes T_Position (le_encode 4 (idx F id))
+  | LVar key toks => w_key key ++ enc_toks F toks
   end.
 
 Fixpoint enc_leaves (F : list N) (ls : list leaf) : list N :=
@@ -39,8 +73,27 @@ Fixpoint enc_items (F : list N) (its : list item) : list N :=
   match its with [] => [] | i :: r => enc_item F i ++ enc_items F r end.
 
 (* identities a leaf / an item mentions *)
+Definition ids_tgt (t : option N) : list N := match t with Some x => [x] | None => [] end.
+
+Definition ids_body (b : tbody (option N)) : list N :=
+  match b with
+  | TPtr _ t => ids_tgt t
+  | TArrayNew hid _ _ _ _ _ => [hid]
+  | TConstArrayNew hid _ _ => [hid]
+  | TPointerNew pid ts => pid :: flat_map ids_tgt ts
+  | THolderRef _ h => ids_tgt h
+  | _ => []
+  end.
+
+Definition ids_tok (t : tok (option N)) : list N := t_vid t :: ids_body (t_body t).
+
 Definition ids_leaf (l : leaf) : list N :=
-  match l with LPtr _ (Some t) => [t] | LPos id => [id] | _ => [] end.
+  match l with
+  | LPtr _ (Some t) => [t]
+  | LPos id => [id]
+  | LVar _ toks => flat_map ids_tok toks
+  | _ => []
+  end.
 
 Definition ids_item (it : item) : list N :=
   match it with ILeaf l => ids_leaf l | IObj _ id body => id :: flat_map ids_leaf body end.
@@ -139,11 +192,165 @@ Proof.
   - lia.
 Qed.
 
-Lemma write_leaf_enc cpl l cpl' b :
-  write_leaf cpl l = (cpl', b) ->
-  wgood cpl cpl' (ids_leaf l) 1 /\ forall more, b = enc_leaf (cpl' ++ more) l.
+Lemma wgood_refl cpl : wgood cpl cpl [] 0.
+Proof. split; [exists []; now rewrite app_nil_r|split; [intros x []|lia]]. Qed.
+
+Lemma wgood_weaken cpl cpl' ids n m : wgood cpl cpl' ids n -> n <= m -> wgood cpl cpl' ids m.
+Proof. intros (E & I & L) H. split; [assumption|split; [assumption|lia]]. Qed.
+
+Lemma wgood_add cpl id cpl' i :
+  add_unique cpl id = (cpl', i) -> wgood cpl cpl' [id] 1 /\ forall more, idx (cpl' ++ more) id = i.
 Proof.
-  destruct l as [k v|bs|bs|s [t|]|id]; cbn [write_leaf enc_leaf ids_leaf]; intro H;
+  intro E. destruct (add_unique_spec _ _ _ _ E) as (Hx & Hi & Hl). split.
+  - split; [assumption|split; [|assumption]]. intros x [<-|[]]. eapply index_from_some_in; eauto.
+  - intro more. now apply idx_of_prefix.
+Qed.
+
+Lemma memN_in x l : memN x l = true <-> In x l.
+Proof.
+  unfold memN. rewrite existsb_exists. split.
+  - intros (y & Hy & E). apply N.eqb_eq in E. now subst.
+  - intro H. exists x. split; [assumption|apply N.eqb_refl].
+Qed.
+
+Lemma w_ptr_enc cpl safe t cpl' b :
+  w_ptr cpl safe t = (cpl', b) ->
+  wgood cpl cpl' (ids_tgt t) 1 /\ forall more, b = enc_ptr (cpl' ++ more) safe t.
+Proof.
+  unfold w_ptr, enc_ptr. destruct t as [x|]; cbn [ids_tgt].
+  - destruct (add_unique cpl x) as [c1 i] eqn:E. intro H. inversion H; subst.
+    destruct (wgood_add _ _ _ _ E) as (G & I). split; [assumption|]. intro more. now rewrite I.
+  - intro H. inversion H; subst. split; [eapply wgood_weaken; [apply wgood_refl|lia]|reflexivity].
+Qed.
+
+Lemma w_ptrs_enc ts : forall cpl cpl' b,
+  w_ptrs cpl ts = (cpl', b) ->
+  wgood cpl cpl' (flat_map ids_tgt ts) (nlen ts) /\ forall more, b = enc_ptrs (cpl' ++ more) ts.
+Proof.
+  induction ts as [|t r IH]; intros cpl cpl' b H; cbn [w_ptrs enc_ptrs flat_map] in *.
+  - inversion H; subst. split; [apply wgood_refl|reflexivity].
+  - destruct (w_ptr cpl false t) as [c1 b1] eqn:E1. destruct (w_ptrs c1 r) as [c2 b2] eqn:E2.
+    inversion H; subst.
+    destruct (w_ptr_enc _ _ _ _ _ E1) as (G1 & B1). destruct (IH _ _ _ E2) as (G2 & B2).
+    split.
+    + rewrite nlen_cons. eapply wgood_ext; eauto.
+    + intro more. destruct G2 as ([e2 ->] & _ & _).
+      rewrite <- app_assoc. rewrite <- (B1 (e2 ++ more)). rewrite app_assoc. now rewrite <- (B2 more).
+Qed.
+
+(* how much a token can add to classpointerList *)
+Definition cnt_body (b : tbody (option N)) : N :=
+  match b with TPointerNew _ ts => 1 + nlen ts | _ => 1 end.
+
+Definition cnt_tok (t : tok (option N)) : N := 1 + cnt_body (t_body t).
+
+Fixpoint cnt_toks (ts : list (tok (option N))) : N :=
+  match ts with [] => 0 | t :: r => cnt_tok t + cnt_toks r end.
+
+Lemma write_tok_enc cpl t cpl' b :
+  write_tok cpl t = (cpl', b) -> cons_tok cpl t = true ->
+  wgood cpl cpl' (ids_tok t) (cnt_tok t) /\ forall more, b = enc_tok (cpl' ++ more) t.
+Proof.
+  unfold write_tok, cons_tok, enc_tok, ids_tok, cnt_tok.
+  destruct (add_unique cpl (t_vid t)) as [c1 i] eqn:E. cbn [fst].
+  destruct (wgood_add _ _ _ _ E) as (G0 & I0).
+  assert (Hpre : forall c2 bb ids n (bfin : list N -> list N),
+            wgood c1 c2 ids n -> (forall more, bb = bfin (c2 ++ more)) ->
+            wgood cpl c2 (t_vid t :: ids) (1 + n) /\
+            forall more, (rec_bytes T_Position (le_encode 4 i) ++ rec_bytes T_Byte [vtype (t_body t)]) ++ bb =
+                         rec_bytes T_Position (le_encode 4 (idx (c2 ++ more) (t_vid t))) ++
+                         rec_bytes T_Byte [vtype (t_body t)] ++ bfin (c2 ++ more)).
+  { intros c2 bb ids n bfin G B. split.
+    - change (t_vid t :: ids) with ([t_vid t] ++ ids). eapply wgood_ext; eauto.
+    - intro more. destruct G as ([e ->] & _ & _). rewrite <- (app_assoc c1 e more). rewrite (I0 (e ++ more)).
+      rewrite <- app_assoc. do 2 f_equal. rewrite (app_assoc c1 e more). apply B. }
+  assert (Hholder : forall hid content c2 bb ids n (cfin : list N -> list N),
+            memN hid c1 = false ->
+            (forall c c' b', content c = (c', b') -> wgood c c' ids n /\ forall more, b' = cfin (c' ++ more)) ->
+            w_holder c1 hid content = (c2, bb) ->
+            wgood c1 c2 (hid :: ids) (1 + n) /\ forall more, bb = enc_new (c2 ++ more) hid (cfin (c2 ++ more))).
+  { intros hid content c2 bb ids n cfin Hm Hc Hw. unfold w_holder in Hw. rewrite Hm in Hw.
+    destruct (add_unique c1 hid) as [c3 j] eqn:Ej. destruct (content c3) as [c4 b4] eqn:Ec. inversion Hw; subst.
+    destruct (wgood_add _ _ _ _ Ej) as (Gj & Ij). destruct (Hc _ _ _ Ec) as (Gc & Bc). split.
+    - change (hid :: ids) with ([hid] ++ ids). eapply wgood_ext; eauto.
+    - intro more. unfold enc_new. destruct Gc as ([e ->] & _ & _). rewrite <- app_assoc, <- (Ij (e ++ more)).
+      rewrite app_assoc. now rewrite <- (Bc more). }
+  destruct (t_body t) as [|bs|k v|s|k x|hid rc tl thr tli count|hid rc size|pid ts|k [hid|]|bs] eqn:Eb;
+    cbn [enc_tbody ids_body cnt_body]; intros H Hc.
+  - injection H as <- <-. destruct (Hpre c1 _ [] 0 (fun _ => []) (wgood_refl _) (fun _ => eq_refl)) as (G & B).
+    split; [eapply wgood_weaken; [exact G|lia]|exact B].
+  - injection H as <- <-. destruct (Hpre c1 _ [] 0 (fun _ => w_str bs) (wgood_refl _) (fun _ => eq_refl)) as (G & B).
+    split; [eapply wgood_weaken; [exact G|lia]|exact B].
+  - injection H as <- <-. destruct (Hpre c1 _ [] 0 (fun _ => rec_bytes (vp_tag k) (le_encode (vp_width k) v)) (wgood_refl _) (fun _ => eq_refl)) as (G & B).
+    split; [eapply wgood_weaken; [exact G|lia]|exact B].
+  - injection H as <- <-. destruct (Hpre c1 _ [] 0 (fun _ => w_cstr s) (wgood_refl _) (fun _ => eq_refl)) as (G & B).
+    split; [eapply wgood_weaken; [exact G|lia]|exact B].
+  - destruct (w_ptr c1 (vptr_safe k) x) as [c2 b2] eqn:E2. injection H as <- <-.
+    destruct (w_ptr_enc _ _ _ _ _ E2) as (G2 & B2).
+    destruct (Hpre c2 b2 _ 1 (fun F => enc_ptr F (vptr_safe k) x) G2 B2) as (G & B). split; [eapply wgood_weaken; [exact G|lia]|exact B].
+  - apply negb_true_iff in Hc.
+    set (content := fun c : list N => (c, u32 rc ++ u32 tl ++ u32 thr ++ u32 count ++ rec_bytes T_UShort (le_encode 2 tli))) in *.
+    destruct (w_holder c1 hid content) as [c2 b2] eqn:E2. injection H as <- <-.
+    destruct (Hholder hid content c2 b2 [] 0
+                (fun _ => u32 rc ++ u32 tl ++ u32 thr ++ u32 count ++ rec_bytes T_UShort (le_encode 2 tli)) Hc) as (G2 & B2); [|exact E2|].
+    { intros c c' b' Hcc. inversion Hcc; subst. split; [apply wgood_refl|reflexivity]. }
+    destruct (Hpre c2 b2 _ _ (fun F => enc_new F hid (u32 rc ++ u32 tl ++ u32 thr ++ u32 count ++ rec_bytes T_UShort (le_encode 2 tli))) G2 B2) as (G & B).
+    split; [eapply wgood_weaken; [exact G|lia]|exact B].
+  - apply negb_true_iff in Hc.
+    set (content := fun c : list N => (c, u32 rc ++ u32 size)) in *.
+    destruct (w_holder c1 hid content) as [c2 b2] eqn:E2. injection H as <- <-.
+    destruct (Hholder hid content c2 b2 [] 0 (fun _ => u32 rc ++ u32 size) Hc) as (G2 & B2); [|exact E2|].
+    { intros c c' b' Hcc. inversion Hcc; subst. split; [apply wgood_refl|reflexivity]. }
+    destruct (Hpre c2 b2 _ _ (fun F => enc_new F hid (u32 rc ++ u32 size)) G2 B2) as (G & B).
+    split; [eapply wgood_weaken; [exact G|lia]|exact B].
+  - apply negb_true_iff in Hc.
+    set (content := fun c : list N => let (c', b) := w_ptrs c ts in (c', u32 (nlen ts) ++ b)) in *.
+    destruct (w_holder c1 pid content) as [c2 b2] eqn:E2. injection H as <- <-.
+    destruct (Hholder pid content c2 b2 (flat_map ids_tgt ts) (nlen ts) (fun F => u32 (nlen ts) ++ enc_ptrs F ts) Hc) as (G2 & B2); [|exact E2|].
+    { intros c c' b' Hcc. unfold content in Hcc. destruct (w_ptrs c ts) as [c5 b5] eqn:E5. inversion Hcc; subst.
+      destruct (w_ptrs_enc _ _ _ _ E5) as (G5 & B5). split; [assumption|]. intro more. now rewrite <- (B5 more). }
+    destruct (Hpre c2 b2 _ _ (fun F => enc_new F pid (u32 (nlen ts) ++ enc_ptrs F ts)) G2 B2) as (G & B).
+    split; [eapply wgood_weaken; [exact G|lia]|exact B].
+  - unfold w_holder in H. rewrite Hc in H.
+    destruct (w_ptr c1 false (Some hid)) as [c3 b3] eqn:E3. injection H as <- <-.
+    destruct (w_ptr_enc _ _ _ _ _ E3) as (G3 & B3).
+    destruct (Hpre c3 (rec_bytes T_Boolean [0] ++ b3) _ 1 (fun F => rec_bytes T_Boolean [0] ++ enc_ptr F false (Some hid)) G3) as (G & B).
+    { intro more. now rewrite <- (B3 more). }
+    split; [eapply wgood_weaken; [exact G|lia]|exact B].
+  - injection H as <- <-. destruct (Hpre c1 _ [] 0 (fun _ => []) (wgood_refl _) (fun _ => eq_refl)) as (G & B).
+    split; [eapply wgood_weaken; [exact G|lia]|exact B].
+  - injection H as <- <-.
+    destruct (Hpre c1 _ [] 0 (fun _ => rec_bytes T_Raw bs ++ rec_bytes T_Raw bs ++ rec_bytes T_Raw bs) (wgood_refl _) (fun _ => eq_refl)) as (G & B).
+    split; [eapply wgood_weaken; [exact G|lia]|exact B].
+Qed.
+
+Lemma write_toks_enc ts : forall cpl cpl' b,
+  write_toks cpl ts = (cpl', b) -> cons_toks cpl ts = true ->
+  wgood cpl cpl' (flat_map ids_tok ts) (cnt_toks ts) /\ forall more, b = enc_toks (cpl' ++ more) ts.
+Proof.
+  induction ts as [|t r IH]; intros cpl cpl' b H Hc; cbn [write_toks enc_toks flat_map cnt_toks cons_toks] in *.
+  - inversion H; subst. split; [apply wgood_refl|reflexivity].
+  - apply andb_true_iff in Hc as [Hc1 Hc2].
+    destruct (write_tok cpl t) as [c1 b1] eqn:E1. destruct (write_toks c1 r) as [c2 b2] eqn:E2.
+    inversion H; subst. cbn [fst] in Hc2.
+    destruct (write_tok_enc _ _ _ _ E1 Hc1) as (G1 & B1). destruct (IH _ _ _ E2 Hc2) as (G2 & B2).
+    split.
+    + eapply wgood_ext; eauto.
+    + intro more. destruct G2 as ([e2 ->] & _ & _).
+      rewrite <- app_assoc. rewrite <- (B1 (e2 ++ more)). rewrite app_assoc. now rewrite <- (B2 more).
+Qed.
+
+Definition count_leaf (l : leaf) : N :=
+  match l with LVar _ toks => cnt_toks toks | _ => 1 end.
+
+Fixpoint count_leaves (ls : list leaf) : N :=
+  match ls with [] => 0 | l :: r => count_leaf l + count_leaves r end.
+
+Lemma write_leaf_enc cpl l cpl' b :
+  write_leaf cpl l = (cpl', b) -> cons_leaf cpl l = true ->
+  wgood cpl cpl' (ids_leaf l) (count_leaf l) /\ forall more, b = enc_leaf (cpl' ++ more) l.
+Proof.
+  destruct l as [k v|bs|bs|s [t|]|id|key toks]; cbn [write_leaf enc_leaf ids_leaf count_leaf cons_leaf]; intros H Hc;
     try (inversion H; subst; split; [split; [exists []; now rewrite app_nil_r|split; [intros x []|lia]]|reflexivity]).
   - destruct (add_unique cpl t) as [c1 i] eqn:E. inversion H; subst.
     destruct (add_unique_spec _ _ _ _ E) as (Hx & Hi & Hl).
@@ -155,40 +362,43 @@ Proof.
     split; [split; [assumption|split; [|assumption]]|].
     + intros x [<-|[]]. eapply index_from_some_in; eauto.
     + intro more. now rewrite (idx_of_prefix _ more _ _ Hi).
+  - destruct (write_toks cpl toks) as [c1 b1] eqn:E. inversion H; subst.
+    destruct (write_toks_enc _ _ _ _ E Hc) as (G & B). split; [assumption|].
+    intro more. now rewrite <- (B more).
 Qed.
 
 Lemma write_leaves_enc ls : forall cpl cpl' b,
-  write_leaves cpl ls = (cpl', b) ->
-  wgood cpl cpl' (flat_map ids_leaf ls) (nlen ls) /\ forall more, b = enc_leaves (cpl' ++ more) ls.
+  write_leaves cpl ls = (cpl', b) -> cons_leaves cpl ls = true ->
+  wgood cpl cpl' (flat_map ids_leaf ls) (count_leaves ls) /\ forall more, b = enc_leaves (cpl' ++ more) ls.
 Proof.
-  induction ls as [|l r IH]; intros cpl cpl' b H; cbn [write_leaves enc_leaves flat_map] in *.
-  - inversion H; subst. split; [|reflexivity].
-    split; [exists []; now rewrite app_nil_r|split; [intros x []|unfold nlen; cbn; lia]].
-  - destruct (write_leaf cpl l) as [c1 b1] eqn:E1. destruct (write_leaves c1 r) as [c2 b2] eqn:E2.
-    inversion H; subst.
-    destruct (write_leaf_enc _ _ _ _ E1) as (G1 & B1). destruct (IH _ _ _ E2) as (G2 & B2).
+  induction ls as [|l r IH]; intros cpl cpl' b H Hc; cbn [write_leaves enc_leaves flat_map count_leaves cons_leaves] in *.
+  - inversion H; subst. split; [apply wgood_refl|reflexivity].
+  - apply andb_true_iff in Hc as [Hc1 Hc2].
+    destruct (write_leaf cpl l) as [c1 b1] eqn:E1. destruct (write_leaves c1 r) as [c2 b2] eqn:E2.
+    inversion H; subst. cbn [fst] in Hc2.
+    destruct (write_leaf_enc _ _ _ _ E1 Hc1) as (G1 & B1). destruct (IH _ _ _ E2 Hc2) as (G2 & B2).
     split.
-    + rewrite nlen_cons. eapply wgood_ext; eauto.
+    + eapply wgood_ext; eauto.
     + intro more. destruct G2 as ([e2 ->] & _ & _).
       rewrite <- app_assoc. rewrite <- (B1 (e2 ++ more)). rewrite app_assoc. now rewrite <- (B2 more).
 Qed.
 
 Definition count_item (it : item) : N :=
-  match it with ILeaf _ => 1 | IObj _ _ body => 1 + nlen body end.
+  match it with ILeaf l => count_leaf l | IObj _ _ body => 1 + count_leaves body end.
 
 Fixpoint count_items (its : list item) : N :=
   match its with [] => 0 | i :: r => count_item i + count_items r end.
 
 Lemma write_item_enc cpl it cpl' b :
-  write_item cpl it = (cpl', b) ->
+  write_item cpl it = (cpl', b) -> cons_item cpl it = true ->
   wgood cpl cpl' (ids_item it) (count_item it) /\ forall more, b = enc_item (cpl' ++ more) it.
 Proof.
-  destruct it as [l|c id body]; cbn [write_item enc_item ids_item count_item]; intro H.
+  destruct it as [l|c id body]; cbn [write_item enc_item ids_item count_item cons_item]; intros H Hc.
   - now apply write_leaf_enc.
-  - destruct (add_unique cpl id) as [c1 i] eqn:E. destruct (write_leaves c1 body) as [c2 bb] eqn:E2.
+  - destruct (add_unique cpl id) as [c1 i] eqn:E. cbn [fst] in Hc. destruct (write_leaves c1 body) as [c2 bb] eqn:E2.
     inversion H; subst.
     destruct (add_unique_spec _ _ _ _ E) as (Hx & Hi & Hl).
-    destruct (write_leaves_enc _ _ _ _ E2) as (G2 & B2).
+    destruct (write_leaves_enc _ _ _ _ E2 Hc) as (G2 & B2).
     split.
     + change (id :: flat_map ids_leaf body) with ([id] ++ flat_map ids_leaf body).
       eapply wgood_ext; [|exact G2].
@@ -198,15 +408,15 @@ Proof.
 Qed.
 
 Lemma write_items_enc its : forall cpl cpl' b,
-  write_items cpl its = (cpl', b) ->
+  write_items cpl its = (cpl', b) -> cons_items cpl its = true ->
   wgood cpl cpl' (flat_map ids_item its) (count_items its) /\ forall more, b = enc_items (cpl' ++ more) its.
 Proof.
-  induction its as [|it r IH]; intros cpl cpl' b H; cbn [write_items enc_items flat_map count_items] in *.
-  - inversion H; subst. split; [|reflexivity].
-    split; [exists []; now rewrite app_nil_r|split; [intros x []|lia]].
-  - destruct (write_item cpl it) as [c1 b1] eqn:E1. destruct (write_items c1 r) as [c2 b2] eqn:E2.
-    inversion H; subst.
-    destruct (write_item_enc _ _ _ _ E1) as (G1 & B1). destruct (IH _ _ _ E2) as (G2 & B2).
+  induction its as [|it r IH]; intros cpl cpl' b H Hc; cbn [write_items enc_items flat_map count_items cons_items] in *.
+  - inversion H; subst. split; [apply wgood_refl|reflexivity].
+  - apply andb_true_iff in Hc as [Hc1 Hc2].
+    destruct (write_item cpl it) as [c1 b1] eqn:E1. destruct (write_items c1 r) as [c2 b2] eqn:E2.
+    inversion H; subst. cbn [fst] in Hc2.
+    destruct (write_item_enc _ _ _ _ E1 Hc1) as (G1 & B1). destruct (IH _ _ _ E2 Hc2) as (G2 & B2).
     split.
     + eapply wgood_ext; eauto.
     + intro more. destruct G2 as ([e2 ->] & _ & _).
@@ -215,11 +425,12 @@ Qed.
 
 (* the whole archive *)
 Lemma write_as_enc h its :
+  cons_items [] its = true ->
   exists F, write h its = write_header h (nlen F) ++ enc_items F its /\
             incl (flat_map ids_item its) F /\ nlen F <= count_items its.
 Proof.
-  unfold write. destruct (write_items [] its) as [F b] eqn:E.
-  destruct (write_items_enc _ _ _ _ E) as ((_ & I & L) & B).
+  intro Hc. unfold write. destruct (write_items [] its) as [F b] eqn:E.
+  destruct (write_items_enc _ _ _ _ E Hc) as ((_ & I & L) & B).
   exists F. split; [|split; [assumption|]].
   - f_equal. specialize (B []). now rewrite app_nil_r in B.
   - unfold nlen in L at 2. cbn in L. lia.
